@@ -4,6 +4,7 @@ mod codec;
 mod gen_codec;
 mod gen;
 mod simsock;
+mod srvsuite;
 mod util;
 mod winsuite;
 mod wsuite;
@@ -33,6 +34,7 @@ fn run_cases(cases: &str, out: &str, dir: &str) {
             "send" => wsuite::run_send(&toks, &dir, &mut cap),
             "recv" => wsuite::run_recv(&toks, &dir, &mut cap),
             "win" => winsuite::run_win(&toks, &dir),
+            "srv" => srvsuite::run_srv(&toks, &dir),
             "cfg" => cfgsuite::run_cfg(&toks),
             "cfgperm" => cfgsuite::run_cfgperm(&toks),
             "ccfg" => cfgsuite::run_ccfg(&toks),
